@@ -37,6 +37,10 @@ import (
 )
 
 func TestMain(m *testing.M) {
+	if jf := os.Getenv("VERIF_C10_ALLOCJOB"); jf != "" {
+		allocChildMain(jf)
+		return
+	}
 	if jf := os.Getenv("VERIF_C10_BULKJOB"); jf != "" {
 		bulkChildMain(jf)
 		return
